@@ -16,6 +16,7 @@ CHECKS = {
             ("R-TABIDX.digit", "r_tables", "run_digit_index", ("quick", "thorough"))],
     "C16": [("R-TABLES.c16", "r_tables", "run_c16", ("quick", "thorough"))],
     "C10": [("R-TABLES.logic", "r_tables", "run_logic", ("quick", "thorough"))],
+    "C19": [("R-RANDCOV", "r_rand", "run", ("quick", "thorough"))],
     "C20": [("R-CXXALIAS", "r_cxx", "run", ("quick", "thorough"))],
     "C01": [("R-CONTRACT", "r_contract", "run", ("quick", "thorough")),
             ("R-CONSTASSERT", "r_assert", "run_constassert", ("quick", "thorough"))],
@@ -47,6 +48,7 @@ RULES = {
     "R-ALLOC.size": ("r_alloc", "run"),
     "R-CONTRACT": ("r_contract", "run"),
     "R-CXXALIAS": ("r_cxx", "run"),
+    "R-RANDCOV": ("r_rand", "run"),
     "R-ALIAS": ("r_alias", "run"),
     "R-ALIAS.mem": ("r_alias", "run_mem"),
     "R-TABIDX.digit": ("r_tables", "run_digit_index"),
@@ -84,6 +86,11 @@ EXPLANATION = {
     "C10": "Exhaustive (4 rows x 9 kernels) truth tables of the per-limb operator of the mpn logical functions, read off the "
            "typed AST of the kernels / MPN_LOGOPS_N_INLINE uses.  Narrow: the mpz-level two's-complement handling, scans and "
            "popcounts are value properties and are not decided.",
+    "C19": "Narrow structural clause of 'a state and its gmp_randinit_set copy produce the same sequence': every generator function table has "
+           "its get / clear / iset slots (seed may be absent only in the noseed table), each iset function writes EVERY field of the "
+           "generator's private state struct (arrays completely) and installs the function table and state pointer, and clear frees the "
+           "struct with the size iset/init allocated and clears every mpz_t member.  Ranges, rejection sampling, bit extraction, "
+           "reproducibility as sequence equality and uniformity are value properties and are NOT decided.",
     "C20": "Static analysis of the C++ expression templates, which the pinned build never compiles: a driver TU instantiates every "
            "expression shape (all 26 partial specialisations of __gmp_expr with an eval(), for mpz/mpq/mpf and the mixed mpz-in-mpq forms), "
            "and in each of the ~128 instantiated eval() bodies no operand that may be the destination (a leaf of its type, or any "
@@ -143,6 +150,9 @@ ASSUMPTIONS = {
                    "partial specialisation of __gmp_expr with an eval() must be instantiated (else exit 2)",
                    "reads that are arguments of the call that writes p happen before the callee runs; the C functions handle overlap themselves",
                    "decides evaluation ORDER under aliasing only - not that each functor calls the right C function with operands in the right order"],
+    "R-RANDCOV": ["generator tables are read from the linked IR; state structs and iset/clear bodies from the typed AST of rand*.c",
+                  "a field counts as copied when it is assigned through the freshly allocated state pointer (or passed as a destination); array "
+                  "fields need literal indices covering the array or a loop whose constant bound equals the array length"],
     "R-ALIAS": ["alias model of the manual: an output may be the same variable as any input of its type, two outputs are distinct, locals alias nothing; "
                 "static helpers inherit the aliasing their call sites in the unit can produce",
                 "public callees handle overlap between their own operands (the same rules applied to them)",
